@@ -4,7 +4,7 @@
      Ser._net_make, Par._net_make, Network._net_make, NetlistMaker.__call__
    (node threading of the emitted netlist).  Tied to the code on every run by
    evaluating these definitions inside Coq on the inputs the real code ran on. *)
-Require Import LT.FieldSec LT.OnePort Gen.OnePortGen.
+Require Import LT.FieldSec LT.OnePort LT.OnePortNet Gen.OnePortGen.
 From Coq Require Import List Bool Arith.
 Import ListNotations.
 Local Open Scope F_scope.
@@ -152,58 +152,22 @@ Definition simplify (t : tree) : option tree := fst (simp t).
 Definition simplify_defined (t : tree) : Prop := snd (simp t).
 
 (* ---- netlist emission -------------------------------------------------------
-   nodes are the integers handed out by NetlistHelper._node (0, 1, 2, ...);
-   NetlistMaker.__call__ takes 0 and 1 and emits the network between 1 (+) and 0 (-). *)
-Inductive elt := EW (a b : nat) | EC (l : lf) (a b : nat).
-Definition emitter := nat -> nat -> nat -> list elt * nat.   (* n1 n2 next-free-node *)
-(* Ser._net_make *)
-Fixpoint ser_emit (es : list emitter) (a b n : nat) : list elt * nat :=
-  match es with
-  | [] => ([], n)
-  | [e] => e a b n
-  | e :: r => let n3 := n in
-              let '(l1, n') := e a n3 (S n) in
-              let n1 := n' in
-              let '(l2, n'') := ser_emit r n1 b (S n') in
-              (l1 ++ EW n3 n1 :: l2, n'')
-  end.
-(* the chain of branches drawn above (or below) the centre of a Par *)
-Fixpoint rails (es : list emitter) (na nb n : nat) : list elt * nat :=
-  match es with
-  | [] => ([], n)
-  | e :: r => let nc := n in let nd := S n in
-              let '(l1, n') := e nc nd (S (S n)) in
-              let '(l2, n'') := rails r nc nd n' in
-              (EW na nc :: EW nb nd :: l1 ++ l2, n'')
-  end.
-Definition nop : emitter := fun _ _ n => ([], n).
-(* Par._net_make *)
-Definition par_emit (es : list emitter) (a b n : nat) : list elt * nat :=
-  let N := length es in
-  let n3 := n in let n4 := S n in
-  let '(lc, c1) := if Nat.odd N then nth (N / 2) es nop n3 n4 (S (S n)) else ([], S (S n)) in
-  let '(lu, c2) := rails (rev (firstn (N / 2) es)) n3 n4 c1 in
-  let '(ld_, c3) := rails (skipn ((N + 1) / 2) es) n3 n4 c2 in
-  (lc ++ EW a n3 :: lu ++ ld_ ++ [EW n4 b], c3).
-Section EmitG.
-Variable lfe : lf -> emitter.
-Fixpoint emitG (t : tree) : emitter :=
-  match t with
-  | Leaf l => lfe l
-  | Ser ts => ser_emit (map emitG ts)
-  | Par ts => par_emit (map emitG ts)
-  end.
-End EmitG.
+   The node threading of Ser._net_make / Par._net_make / NetlistMaker.__call__ is
+   modelled in theory/OnePortNet.v (ser_emit, rails, par_emit, emitG, netlist_of:
+   these are the definitions [netlist_of_tree_sem] is proved about); here the
+   leaves: nodes are the integers handed out by NetlistHelper._node. *)
+Notation elt := (elt lf).
+Notation emitter := (emitter lf).
 (* Network._net_make (one component; G prints as a resistor 1/G) *)
-Definition leaf0 (l : lf) : emitter := fun a b n => ([EC (nleaf l) a b], n).
+Definition leaf0 (l : lf) : emitter := leaf_emit (nleaf l).
 (* Xtal / FerriteBead: the netlist of expand() *)
 Definition leaf1 (l : lf) : emitter := match nexpand l with Some t => emitG leaf0 t | None => leaf0 l end.
 Definition emit (t : tree) : emitter := emitG leaf1 t.
 (* NetlistMaker.__call__ *)
-Definition netlist_of (t : tree) : list elt := fst (emit t 1%nat 0%nat 2%nat).
+Definition netlist_of_tree (t : tree) : list elt := netlist_of leaf1 t.
 End Model.
 
-Arguments CNone {K}. Arguments CSome {K}. Arguments CErr {K}. Arguments EW {K}. Arguments EC {K}.
+Arguments CNone {K}. Arguments CSome {K}. Arguments CErr {K}.
 
 (* ---- correspondence helpers over Qc (evaluated by vm_compute in cases_*.v) ---------- *)
 Definition oqeqb (a b : option Qc) : bool :=
@@ -233,7 +197,7 @@ Definition normtag (t : nat) : nat :=
 Definition lf_eqb_n (a b : lf QcF) : bool :=
   Nat.eqb (normtag (ctag a)) (normtag (ctag b)) &&
   (if existsb (Nat.eqb (ctag a)) skip then true else listeqb oqeqb (largs a) (largs b)).
-Definition elt_eqb (a b : elt QcF) : bool :=
+Definition elt_eqb (a b : elt (lf QcF)) : bool :=
   match a, b with
   | EW a1 b1, EW a2 b2 => Nat.eqb a1 a2 && Nat.eqb b1 b2
   | EC l1 a1 b1, EC l2 a2 b2 => lf_eqb_n l1 l2 && Nat.eqb a1 a2 && Nat.eqb b1 b2
@@ -247,6 +211,6 @@ Definition LDq (s0 : Qc) (sp : Qc -> Qc) : lf QcF -> ldata QcF :=
   ld (K:=QcF) s0 sp (0%Qc : QcF) (fun x => x / s0)%Qc (fun x => x / s0)%Qc (fun x => x) (fun x => x) (fun x => x) (fun v _ _ => v).
 Definition simplify_q (s0 : Qc) (sp : Qc -> Qc) (t : tree (lf QcF)) : option (tree (lf QcF)) :=
   simplify QcF s0 sp (0%Qc : QcF) (fun x => x / s0)%Qc (fun x => x / s0)%Qc (fun x => x) (fun x => x) (fun x => x) (fun v _ _ => v) t.
-Definition netlist_q (t : tree (lf QcF)) : list (elt QcF) := netlist_of QcF t.
+Definition netlist_q (t : tree (lf QcF)) : list (elt (lf QcF)) := netlist_of_tree QcF t.
 (* junk-free comparison: the real value may be complex infinity *)
 Definition vchk (x expected : Qc) : bool := qc_eqb x expected.
